@@ -198,6 +198,23 @@ fn vm_tj_cases(s: &mut Session, rng: &mut Rng) {
         }
     }
     s.mark_nontrivial();
+    // several trojan inbounds in one process, each with its own password: each checks its own
+    s.begin_case("trojan:two-inbounds");
+    let (p1, p2) = (format!("first-{}", rng.below(1 << 40)), format!("second-{}", rng.below(1 << 40)));
+    for (client_pw, server_pw, ok) in [(&p1, &p1, true), (&p2, &p2, true), (&p1, &p2, false), (&p2, &p1, false), (&p2, &p2, true)] {
+        let (c, sv) = (s.fresh("c"), s.fresh("s"));
+        let addr = random_addr(rng);
+        s.run(&format!("tj.client {} password={} cmd=tcp addr={}", c, client_pw, addr));
+        s.run(&format!("tj.server {} password={}", sv, server_pw));
+        let Some(w) = encode_all(s, &c, &[b"payload".to_vec()]) else { return };
+        let d = feed_all(s, &sv, &[w], true);
+        if ok && d.connect.as_deref() != Some(addr.as_str()) {
+            s.oracle_fail("trojan:control", "an inbound did not accept its own password");
+        } else if !ok {
+            must_refuse(s, "trojan", "a request with the password of another inbound of the same process", &d);
+        }
+    }
+    s.mark_nontrivial();
     s.begin_case("trojan");
     let pw = "correct horse battery";
     let pw = pw.replace(' ', "-");
